@@ -1,0 +1,15 @@
+//! Verification entry points. Only compiled with `--cfg iroh_verif`; never part of a shipped build.
+//!
+//! Thin wrappers that let an external deterministic simulator drive crate-private components
+//! through the same functions the endpoint uses.
+
+pub use crate::socket::{
+    mapped_addrs::verif::{AddrMaps, Kind as AddrKind, classify},
+    transports::relay_actor_verif::HomeRelay,
+};
+use crate::{address_lookup::AddressLookupServices, endpoint_info::EndpointData};
+
+/// Calls the crate-private `AddressLookupServices::publish` (what the endpoint's actor calls).
+pub fn publish(services: &AddressLookupServices, data: &EndpointData) {
+    services.publish(data);
+}
